@@ -356,6 +356,22 @@ Proof.
   intros f H. vm_compute in H. destruct H as [H|[H|[H|[]]]]; subst f; eexists; vm_compute; reflexivity.
 Qed.
 
+(* mergeWithPath: a parent that is null is skipped, the resolved values go to the other parents in
+   order (before the repair of flattenObject this input failed the whole fetch with
+   "expected array or object, got null") *)
+Definition n_items : bytes := [105;116;101;109;115].
+Definition n_top : bytes := [116;111;112].
+Definition n_cnt : bytes := [99;110;116].
+Example null_parent_skipped :
+  merge_with_path
+    (JObj [(n_items, JArr [JObj [(n_top, JObj [(w_a, JStr w_1)])]; JObj [(n_top, JNull)]; JObj [(n_top, JObj [(w_a, JStr w_2)])]])])
+    (JObj [(name_result, JArr [JObj [(n_cnt, JNum w_1)]; JObj [(n_cnt, JNum w_2)]])])
+    [n_items; n_top; n_cnt]
+  = Ok (JObj [(n_items, JArr [JObj [(n_top, JObj [(w_a, JStr w_1); (n_cnt, JNum w_1)])];
+                              JObj [(n_top, JNull)];
+                              JObj [(n_top, JObj [(w_a, JStr w_2); (n_cnt, JNum w_2)])]])]).
+Proof. vm_compute. reflexivity. Qed.
+
 (* ------------------------------------------------------------------ statements of Properties.v with longer proofs *)
 Lemma shape_nonnull_refuted_proof :
   exists em p d n, In n (pvalid p (tname_of d)) /\ f_optional (meta_of n) = false /\
